@@ -835,9 +835,15 @@ impl Monitor {
             }
         }
         if open >= limit || held.collision.is_some() {
-            // must not have taken more
-            if open > limit {
-                self.v("window_exceeded", format!("{open} publishes not finally acknowledged, limit {limit}"));
+            // must not have taken more. What was carried over a failure is replayed whatever
+            // the new connection negotiated (the statement bounds it by the configured limit)
+            let replayed = self
+                .broker_pubs
+                .iter()
+                .filter(|b| !b.done && self.ledger.iter().any(|l| l.tag == b.tag && l.issued_epoch < self.fail_epoch))
+                .count();
+            if open > self.limit as usize || (open > limit && open > replayed) {
+                self.v("window_exceeded", format!("{open} publishes not finally acknowledged ({replayed} of them replayed after a failure), limit {limit}, configured {}", self.limit));
             }
         } else if queued > 0 {
             let d = format!(
